@@ -14,9 +14,11 @@ import hashlib
 import json
 import os
 import pty
+import select
 import shutil
 import subprocess
 import tempfile
+import time
 
 from vt import core, budget as B
 
@@ -24,7 +26,7 @@ SPEC = {
     'level': 'fault_enumeration',
     'shards': {'quick': 8, 'thorough': 16},
     'rule': ('budget shapes (old/new layout; settings with/without views; existing .bak; unreferenced merchants.rules; output dir with an old '
-             'report; .rules budget) x commands {up --migrate, init, update -y, and `update` at a pseudo-terminal answered y / Enter / Y / n / Ctrl-D} x every effect index k of the recorded effect sequence x modes '
+             'report; .rules budget) x commands {up --migrate, init, update -y, `update` at a pseudo-terminal answered y / Enter / Y / n / Ctrl-D, plain `up` on a terminal whose migration offer is answered y / n / Enter} x every effect index k of the recorded effect sequence x modes '
              '{crash-before, crash with 25/50/75/97% of the in-flight file written, crash-full (writes only), error}. quick visits 4 (shape, command) pairs completely, thorough all of '
              'them. Non-trivial = injection at an effect that touches the rules, the settings or a directory move; distinct by (shape, command, k, mode)'),
     'exhaustive': {'quick': False, 'thorough': True},
@@ -80,8 +82,11 @@ QUICK = [('csv-old', 'migrate'), ('csv-old-bak', 'init'), ('csv-old-output', 'up
          ('rules-old-absdata', 'update'), ('csv-old', 'migrate', 'other-filesystem'), ('csv-old-empty-key', 'migrate'), ('csv-old-altsettings', 'migrate'),
          ('csv-old-commented-key', 'init'), ('rules-old-symlink-data', 'update'), ('csv-old-oddname', 'migrate'), ('csv-old-oddname-hash', 'migrate'), ('csv-old-oddname-punct', 'migrate'), ('csv-old-symlinked-config', 'migrate'), ('csv-old-manybaks', 'migrate'), ('csv-old-explicit-csv', 'migrate'), ('csv-old-explicit-csv', 'init'), ('csv-old-stray-norules', 'migrate'), ('csv-old-oddname-twosettings', 'migrate')]
 # the folder-layout migration asked for at a terminal (`tally update` without -y, stdin a pseudo-terminal) and what the user types at its prompt
-TTY_ANSWERS = {'update-tty-y': b'y\n', 'update-tty-enter': b'\n', 'update-tty-yes-upper': b'Y\n', 'update-tty-n': b'n\n', 'update-tty-eof': b'\x04'}
-QUICK += [('csv-old-output', 'update-tty-y'), ('rules-old-symlink-data', 'update-tty-enter'), ('csv-old-output', 'update-tty-n'), ('rules-old-absdata', 'update-tty-eof')]
+# ... and the CSV-to-.rules migration OFFERED by a plain `tally up` whose stdout is a terminal ("Migrate to new format? [y/N]")
+FULL_TTY = {'migrate-tty-y': b'y\n', 'migrate-tty-n': b'n\n', 'migrate-tty-enter': b'\n'}
+TTY_ANSWERS = {**FULL_TTY, 'update-tty-y': b'y\n', 'update-tty-enter': b'\n', 'update-tty-yes-upper': b'Y\n', 'update-tty-n': b'n\n', 'update-tty-eof': b'\x04'}
+QUICK += [('csv-old-output', 'update-tty-y'), ('rules-old-symlink-data', 'update-tty-enter'), ('csv-old-output', 'update-tty-n'), ('rules-old-absdata', 'update-tty-eof'),
+          ('csv-old-bak', 'migrate-tty-y'), ('csv-old', 'migrate-tty-n'), ('csv-old-commented-key', 'migrate-tty-y')]
 OTHER_FS = '/dev/shm'        # a file system other than the one holding the system temp directory (if this machine has one)
 
 
@@ -163,13 +168,26 @@ def cmd_args(cmd, shape, root):
         return ['up', cfg_rel, '--migrate', '-q'] + (['--settings', ALT] if sp.get('altsettings') else [])
     if cmd == 'init':
         return ['init'] if sp['layout'] == 'old' else ['init', 'tally']
+    if cmd in FULL_TTY:
+        return ['up', cfg_rel] + (['--settings', ALT] if sp.get('altsettings') else [])
     if cmd in TTY_ANSWERS:
         return ['update']
     return ['update', '-y']
 
 
-def tally_at_terminal(root, args, answer, env_extra=None, timeout=180):
-    """`tally <args>` with a pseudo-terminal as stdin (sys.stdin.isatty() is true, so the confirmation prompts are shown); `answer` is typed ahead."""
+def pseudo_terminal_available():
+    try:
+        m, sl = pty.openpty()
+    except OSError:
+        return False
+    os.close(m)
+    os.close(sl)
+    return True
+
+
+def tally_at_terminal(root, args, answer, env_extra=None, timeout=180, full=False):
+    """`tally <args>` with a pseudo-terminal as stdin (sys.stdin.isatty() is true, so the confirmation prompts are shown); `answer` is typed ahead.
+    full=True: stdout and stderr are the terminal too (what `tally up` looks at before it offers the CSV migration)."""
     env = dict(os.environ, PYTHONPATH=core.SRC, PYTHONDONTWRITEBYTECODE='1', NO_COLOR='1', PYTHONHASHSEED='0')
     env.pop('TALLY_CONFIG', None)
     if env_extra:
@@ -177,21 +195,44 @@ def tally_at_terminal(root, args, answer, env_extra=None, timeout=180):
     master, slave = pty.openpty()
     try:
         os.write(master, answer)
-        p = subprocess.Popen([core.PY, '-m', 'tally'] + list(args), cwd=root, env=env, stdin=slave, stdout=subprocess.PIPE, stderr=subprocess.PIPE, text=True)
-        try:
-            out, err = p.communicate(timeout=timeout)
-        except subprocess.TimeoutExpired:
-            p.kill()
-            out, err = p.communicate()
-        return subprocess.CompletedProcess(p.args, p.returncode, out, err)
-    finally:
+        if not full:
+            p = subprocess.Popen([core.PY, '-m', 'tally'] + list(args), cwd=root, env=env, stdin=slave, stdout=subprocess.PIPE, stderr=subprocess.PIPE, text=True)
+            try:
+                out, err = p.communicate(timeout=timeout)
+            except subprocess.TimeoutExpired:
+                p.kill()
+                out, err = p.communicate()
+            return subprocess.CompletedProcess(p.args, p.returncode, out, err)
+        p = subprocess.Popen([core.PY, '-m', 'tally'] + list(args), cwd=root, env=env, stdin=slave, stdout=slave, stderr=slave)
         os.close(slave)
+        slave = None
+        chunks, deadline = [], time.monotonic() + timeout
+        while True:
+            r, _, _ = select.select([master], [], [], 1.0)
+            if r:
+                try:
+                    b = os.read(master, 65536)
+                except OSError:          # EIO: the child closed its side
+                    break
+                if not b:
+                    break
+                chunks.append(b)
+            elif p.poll() is not None:
+                break
+            if time.monotonic() > deadline:
+                p.kill()
+                break
+        p.wait()
+        return subprocess.CompletedProcess(p.args, p.returncode, b''.join(chunks).decode('utf-8', 'replace'), '')
+    finally:
+        if slave is not None:
+            os.close(slave)
         os.close(master)
 
 
 def run_cmd(cmd, root, args, env_extra=None):
     if cmd in TTY_ANSWERS:
-        return tally_at_terminal(root, args, TTY_ANSWERS[cmd], env_extra=env_extra)
+        return tally_at_terminal(root, args, TTY_ANSWERS[cmd], env_extra=env_extra, full=cmd in FULL_TTY)
     return B.tally(root, *args, env_extra=env_extra)
 
 
@@ -391,13 +432,18 @@ def run(rec, shard, nshards, t):
     log = os.path.join(tempfile.gettempdir(), 'vt-c15-%d.log' % os.getpid())
     try:
         pairs = QUICK if t == 'quick' else [(s, c) for s in SHAPES for c in COMMANDS if c in SHAPES[s].get('only', COMMANDS)] + [
-            (s, c) for s in SHAPES for c in TTY_ANSWERS if 'update' in SHAPES[s].get('only', COMMANDS) and SHAPES[s]['layout'] == 'old'] + [(s, c, 'other-filesystem') for s in ('csv-old', 'csv-new', 'csv-old-views')
+            (s, c) for s in SHAPES for c in TTY_ANSWERS if c not in FULL_TTY and 'update' in SHAPES[s].get('only', COMMANDS) and SHAPES[s]['layout'] == 'old'] + [
+            (s, c) for s in SHAPES for c in FULL_TTY if 'migrate' in SHAPES[s].get('only', COMMANDS) and SHAPES[s]['rules'] == 'csv' and not SHAPES[s].get('cfg_name')] + [(s, c, 'other-filesystem') for s in ('csv-old', 'csv-new', 'csv-old-views')
                                                                                              for c in ('migrate', 'init')]
         idx = 0
         tmp_home = tmp
+        have_pty = pseudo_terminal_available()
         for item in pairs:
             shape, cmd = item[:2]
             tmp = tmp_home
+            if cmd in TTY_ANSWERS and not have_pty:
+                rec.count('pseudo_terminal_unavailable')
+                continue
             if len(item) > 2:
                 # the budget on another file system than the temp directory: a "rename" from the temp directory degrades to copy + delete
                 if not other_filesystem():
@@ -422,15 +468,17 @@ def run(rec, shard, nshards, t):
             rec.count('recording_runs')
             if cmd in TTY_ANSWERS and shard == 0:
                 # the prompt was really shown (otherwise this pair observed the silent non-interactive skip, not the terminal path)
-                if 'Migrate to new layout?' not in (p.stdout or ''):
-                    rec.unsure(f'{shape}/{cmd}: the confirmation prompt of `tally update` was not shown (exit {p.returncode}): {(p.stdout or "")[-200:]!r}')
+                if ('Migrate to new format?' if cmd in FULL_TTY else 'Migrate to new layout?') not in (p.stdout or ''):
+                    rec.unsure(f'{shape}/{cmd}: the confirmation prompt was not shown (exit {p.returncode}): {(p.stdout or "")[-200:]!r}')
                 else:
                     rec.count('terminal_prompts_answered')
-                    declined = cmd in ('update-tty-n', 'update-tty-eof')
+                    declined = cmd in ('update-tty-n', 'update-tty-eof', 'migrate-tty-n', 'migrate-tty-enter')
                     rec.count('terminal_migrations_declined' if declined else 'terminal_migrations_confirmed')
-                    if declined and contents(root2) != before2:
-                        rec.violation('declined-migration-changes-the-budget:' + cmd, f'{shape}: the user answered {TTY_ANSWERS[cmd]!r} at the prompt of `tally update`; the tree changed: '
-                                      f'{sorted(set(contents(root2)) ^ set(before2))}', {'kind': 'point', 'shape': shape, 'cmd': cmd, 'k': 0, 'mode': 'record'})
+                    # (a declined `tally up` still writes its report: output/ is not part of the comparison there)
+                    now2 = {r: v for r, v in contents(root2).items() if not (cmd in FULL_TTY and (r.startswith('output' + os.sep) or (os.sep + 'output' + os.sep) in r))}
+                    if declined and now2 != before2:
+                        rec.violation('declined-migration-changes-the-budget:' + cmd, f'{shape}: the user answered {TTY_ANSWERS[cmd]!r} at the prompt; the tree changed: '
+                                      f'{sorted(k for k in set(now2) | set(before2) if now2.get(k) != before2.get(k))}', {'kind': 'point', 'shape': shape, 'cmd': cmd, 'k': 0, 'mode': 'record'})
             if shard == 0:
                 rec.count('effects_in_sequences', len(effects))
                 rec.sample({'shape': shape, 'command': cmd, 'effects': ['%d %s %s%s' % (e['n'], e['kind'], e['path'], ' -> ' + e['path2'] if e.get('path2') else '') for e in effects]})
